@@ -596,6 +596,24 @@ func ZZ_SVC_Scenarios() {
 		zz.Assert(n1 == earlyCount, "view.same-answer-for-its-whole-lifetime")
 		early.Release()
 		zzInService(mgr, func() {})
+	case 11: // a view taken after the first import is held across later imports and a merge
+		held := mgr.GetView()
+		seen := map[uint64]uint64{}
+		held.AllStreams(context.Background(), func(sc StreamContext) error { seen[sc.Stream().ID()] = sc.Stream().ClientBytes; return nil })
+		imp("b.pcap")
+		zzSettle(mgr)
+		imp("c.pcap") // extends stream 0, adds a stream, makes a merge eligible
+		zzSettle(mgr)
+		again := map[uint64]uint64{}
+		err := held.AllStreams(context.Background(), func(sc StreamContext) error { again[sc.Stream().ID()] = sc.Stream().ClientBytes; return nil })
+		zz.Assert(err == nil, "view.held.noerr")
+		zz.Assert(len(again) == len(seen), "view.held.same-streams-for-its-whole-lifetime")
+		for id, cb := range seen {
+			zz.Assert(again[id] == cb, "view.held.same-version-for-its-whole-lifetime")
+		}
+		zz.Assert(zz.FSBadUse() == 0, "view.held.no-read-of-a-closed-file")
+		held.Release()
+		zzInService(mgr, func() {})
 	case 5: // a capture arrives out of chronological order: the stream is reset
 		imp("early.pcap")
 		zzSettle(mgr)
